@@ -830,3 +830,94 @@ func memVar(v ssa.Value) *ssa.Alloc {
 	}
 	return nil
 }
+
+// guardedAlt: one value an expression can take, with literals that hold whenever it does.
+type guardedAlt struct {
+	term string
+	must []string
+}
+
+// resultAlts lists the alternatives of v with their guards: the edges of a merge; or, when v is
+// a result of a small loop-free read-only repo helper (`func (l *Lexer) decodeNext() (rune, int)`),
+// what the helper returns on each of its paths, rewritten into fn's terms, guarded by the path
+// inside the helper and by the call's own guards. Anything else is one alternative.
+func (c *Ctx) resultAlts(fn *ssa.Function, v ssa.Value) []guardedAlt {
+	if p, ok := v.(*ssa.Phi); ok && !isLoopHeader(p.Block()) {
+		var out []guardedAlt
+		for i, e := range p.Edges {
+			for _, a := range c.resultAlts(fn, e) {
+				a.must = append(append([]string{}, a.must...), c.edgeMust(fn, p.Block().Preds[i], p.Block())...)
+				out = append(out, a)
+			}
+		}
+		return out
+	}
+	var call *ssa.Call
+	idx := 0
+	switch x := v.(type) {
+	case *ssa.Extract:
+		call, _ = x.Tuple.(*ssa.Call)
+		idx = x.Index
+	case *ssa.Call:
+		call = x
+	}
+	single := func() []guardedAlt {
+		var must []string
+		if in, ok := v.(ssa.Instruction); ok && in.Block() != nil {
+			must = c.mustLits(fn, in.Block())
+		}
+		return []guardedAlt{{term: c.term(fn, v), must: must}}
+	}
+	if call == nil || call.Call.IsInvoke() {
+		return single()
+	}
+	g := call.Call.StaticCallee()
+	if g == nil || g == fn || !c.W.InRepo(g) || len(g.Blocks) == 0 || len(g.Blocks) > 16 || c.T(fn).purity(g) < purReadOnly {
+		return single()
+	}
+	for _, b := range g.Blocks {
+		if isLoopHeader(b) {
+			return single()
+		}
+	}
+	pcg := c.PC(g)
+	pc := c.PC(fn)
+	base := c.mustLits(fn, call.Block())
+	var out []guardedAlt
+	for _, r := range returnsOf(g) {
+		if idx >= len(r.Results) {
+			return single()
+		}
+		d := pcg.At(r.Block())
+		if d.unknown {
+			return single()
+		}
+		for _, inner := range c.resultAlts(g, r.Results[idx]) {
+			if strings.Contains(quotedRe.ReplaceAllString(inner.term, `""`), "phi(") {
+				return single()
+			}
+			ts, ok := pc.substSummary(call, []conj{{"+" + inner.term}})
+			if !ok || len(ts) != 1 || len(ts[0]) != 1 {
+				return single()
+			}
+			for _, cj := range d.cs {
+				cs, ok := pc.substSummary(call, []conj{cj})
+				if !ok {
+					return single()
+				}
+				if len(cs) == 0 {
+					continue
+				}
+				a := guardedAlt{term: c.T(fn).Canon(ts[0][0][1:]), must: append([]string{}, base...)}
+				for _, l := range cs[0] {
+					a.must = append(a.must, c.T(fn).Canon(l))
+				}
+				out = append(out, a)
+			}
+		}
+	}
+	if len(out) == 0 {
+		return single()
+	}
+	return out
+}
